@@ -584,7 +584,18 @@ void explore(const std::string & label_in, uint64_t n, const Body & body)
     }
     if (!same) {
       const bool serial_agree = memcmp(&serial[0], &serial[1], 8) == 0 && memcmp(&serial[1], &serial[2], 8) == 0;
-      if (!serial_agree) harness_error("non-deterministic case at " + label + " idx " + std::to_string(v.idx) + " judge " + v.what);
+      if (!serial_agree) {
+        // Not even reproducible when run alone. Harness bodies are deterministic by construction (no clocks, no random numbers,
+        // heap blocks pre-filled with a constant pattern), so the library's result depends on something it must not depend
+        // on (stale memory, a data race in its own threads): reported as a violation of the judged clause.
+        Viol w = v;
+        w.what = v.what + " [result not reproducible: differs between identical runs]";
+        w.desc = v.desc + fmt(" | first: err=%.6g, alone: err=%.6g / %.6g / %.6g", v.err, serial[0], serial[1], serial[2]);
+        std::string path = write_replay(label, "index", w, "");
+        emit_violation(path, label, w);
+        ++filed;
+        continue;
+      }
       // Deterministic when run alone, different when it ran concurrently with the other cases (16 worker threads calling the
       // library's non-mutating operations on their own objects): the operation is not reentrant. Harness bodies share only
       // read-only data, so this is a defect of the library (hidden static / scratch state), reported as such.
